@@ -93,3 +93,18 @@ Theorem C19_include_assign_order_irrelevant : forall m ce cs',
   check_exclude (with_include m (Some {| cs_expr := ce; cs_list := cs |})) = check_exclude m.
 Proof. exact check_exclude_include_perm. Qed.
 Print Assumptions C19_include_assign_order_irrelevant.
+
+(* "rows or entries built from expressions are never reported": a value counts as built from an
+   expression iff a `${{` is followed - anywhere after it - by `}}` (ContainsExpression after the
+   repair of the round-7 defect); before it the first `}}` of the whole text had to come after
+   the first `${{`, so `c }} ${{ github.ref }}` was compared like a literal *)
+From AL Require Base.Str.
+Theorem C19_placeholder_recognised : forall s,
+  Str.contains_expr s = true <-> exists i j, String.index 0 "${{" s = Some i /\ String.index i "}}" s = Some j.
+Proof. exact Str.contains_expr_spec. Qed.
+Print Assumptions C19_placeholder_recognised.
+
+Theorem C19_placeholder_after_closing_braces_old_refuted :
+  exists s, Str.contains_expr s = true /\ Str.contains_expr_old s = false.
+Proof. exact Str.contains_expr_old_refuted. Qed.
+Print Assumptions C19_placeholder_after_closing_braces_old_refuted.
